@@ -165,7 +165,11 @@ namespace awkward {
   void
   ListOffsetArrayBuilder::bytestring(const std::string& x, LayoutBuilder* builder) {
     if (is_string_builder_) {
-      builder->add<const std::string&>(x);
+      // this node is the string: open and close *this* list (going back in through the
+      // root would meet parents whose position has already moved on)
+      begin_list(builder);
+      builder->bytestring(x.c_str(), (int64_t)x.length());
+      end_list(builder);
     }
     else {
       content_.get()->bytestring(x, builder);
@@ -175,7 +179,10 @@ namespace awkward {
   void
   ListOffsetArrayBuilder::string(const std::string& x, LayoutBuilder* builder) {
     if (is_string_builder_) {
-      builder->add<const std::string&>(x);
+      // see bytestring
+      begin_list(builder);
+      builder->string(x.c_str(), (int64_t)x.length());
+      end_list(builder);
     }
     else {
       content_.get()->string(x, builder);
